@@ -31,10 +31,10 @@ type entry struct {
 // scan is the raw-iterator view of one state: entries per abstract store in store order, and a digest of each
 // abstract store's raw content (used to skip request kinds whose input is unchanged).
 type scan struct {
-	ents   map[string][]entry
-	byRel  map[string]map[string]Coord // store -> relative key -> coordinates
-	relOf  map[string]map[Coord][]byte
-	stamp  map[string]string
+	ents  map[string][]entry
+	byRel map[string]map[string]Coord // store -> relative key -> coordinates
+	relOf map[string]map[Coord][]byte
+	stamp map[string]string
 }
 
 func dg(b []byte) string {
